@@ -66,6 +66,7 @@ int exec_s1(const Words& w, Ctx& c);
 int exec_s2(const Words& w, Ctx& c);
 int exec_s3(const Words& w, Ctx& c);
 int exec_s4(const Words& w, Ctx& c);
+int exec_s5(const Words& w, Ctx& c);
 
 template <int R, bool A> void add_root(long h, Array<R, double, A>* a) {
   Obj o; o.kind = K_ARR; o.rank = R; o.active = A; o.p = a; o.root = h;
